@@ -528,10 +528,10 @@ var (
 	encNames   = []string{"gzip", "deflate", "br", "zstd", "brotli"}
 	badEncs    = []string{"identity", "GZIP", "compress", "x-custom"}
 	hvalsByKey = map[string][]string{
-		"Accept":            {"text/html", "application/json", "text/html, application/json;q=0.8", "*/*"},
-		"Accept-Language":   {"en", "de, en;q=0.5", "fr"},
+		"Accept":            {"text/html", "application/json", "text/html, application/json;q=0.8", "*/*", "text/html;Level=1, application/json", "text/plain;Charset=utf-8;q=0.9, text/html;Version=2;q=0.5"},
+		"Accept-Language":   {"en", "de, en;q=0.5", "fr", "en;Region=gb;q=0.8, de"},
 		"Accept-Charset":    {"utf-8", "iso-8859-1, utf-8;q=0.7"},
-		"Accept-Encoding":   {"gzip", "br, gzip", "identity"},
+		"Accept-Encoding":   {"gzip", "br, gzip", "identity", "gzip;Level=9;q=0.5, br"},
 		"X-Forwarded-For":   {"1.2.3.4", "1.2.3.4, 5.6.7.8", "9.9.9.9, 10.0.0.1, 8.8.8.8", "unknown, 1.2.3.4", "1.2.3.400"},
 		"X-Forwarded-Host":  {"proxy.example.com", "front.test, back.test", "a.b.c.proxy.example.org:8443"},
 		"X-Forwarded-Proto": {"https", "http", "https, http"},
@@ -948,12 +948,16 @@ func (cc *capturer) probeIface(prefix string, v reflect.Value, it reflect.Type, 
 		}
 		mt := m.Type
 		text := false
+		pred := mt.NumOut() > 0 // predicates (Fresh, Is, XHR ...): called too, a handler calls them in between
 		for o := 0; o < mt.NumOut(); o++ {
 			if hasText(mt.Out(o), 0) {
 				text = true
 			}
+			if mt.Out(o).Kind() != reflect.Bool {
+				pred = false
+			}
 		}
-		if !text {
+		if !text && !pred {
 			continue
 		}
 		fn := v.MethodByName(m.Name)
@@ -997,6 +1001,26 @@ func captureAll(c fiber.Ctx, q request) []*captured {
 	cc := &capturer{}
 	call := cc.call
 	keys := keysFor(q)
+	// First of all the getters that expose request storage most directly, BEFORE any other accessor has
+	// run: whatever a later accessor does to the request (in whatever order the reflection loop calls
+	// them) shows up when these are re-read at the end of the handler.
+	one := func(v any) []reflect.Value { return []reflect.Value{reflect.ValueOf(v)} }
+	for _, k := range keys {
+		k := k
+		call("Pre.Get("+k+")", func() []reflect.Value { return one(c.Get(k)) })
+		call("Pre.Cookies("+k+")", func() []reflect.Value { return one(c.Cookies(k)) })
+		call("Pre.Query("+k+")", func() []reflect.Value { return one(c.Query(k)) })
+		call("Pre.FormValue("+k+")", func() []reflect.Value { return one(c.FormValue(k)) })
+	}
+	call("Pre.Params(name)", func() []reflect.Value { return one(c.Params("name")) })
+	call("Pre.Params(*)", func() []reflect.Value { return one(c.Params("*")) })
+	call("Pre.OriginalURL", func() []reflect.Value { return one(c.OriginalURL()) })
+	call("Pre.Path", func() []reflect.Value { return one(c.Path()) })
+	call("Pre.Host", func() []reflect.Value { return one(c.Host()) })
+	call("Pre.Protocol", func() []reflect.Value { return one(c.Protocol()) })
+	call("Pre.BodyRaw", func() []reflect.Value { return one(c.BodyRaw()) })
+	call("Pre.Queries", func() []reflect.Value { return one(c.Queries()) })
+	call("Pre.GetReqHeaders", func() []reflect.Value { return one(c.GetReqHeaders()) })
 	cc.probeIface("", reflect.ValueOf(c), reflect.TypeOf((*fiber.Ctx)(nil)).Elem(), keys)
 	cc.probeIface("Req.", reflect.ValueOf(c.Req()), reflect.TypeOf((*fiber.Req)(nil)).Elem(), keys)
 	cc.probeIface("Res.", reflect.ValueOf(c.Res()), reflect.TypeOf((*fiber.Res)(nil)).Elem(), keys)
